@@ -1,5 +1,101 @@
-//! `domop` cases: FiniteDomain operations (C18). Filled in by milestone 3.
+//! `domop` cases: one FiniteDomain operation per case (C18).
+//!
+//! Case: {"kind":"domop","op":name,"a":dom,"b":dom?,"arg":n?,"emb":"id"|"ext"}; dom is
+//! ["itv",lo,hi] or ["vec",[n..]] over the model window -3..3.  Under the "ext" embedding the
+//! window is mapped monotonically onto isize with the end points at isize::MIN / isize::MAX;
+//! results are mapped back, values outside the image are reported as 99.
+use crate::log;
+use proto_vulcan::state::FiniteDomain;
 use serde_json::{json, Value};
+
+fn emb(ext: bool, n: i64) -> isize {
+    if !ext {
+        return n as isize;
+    }
+    match n {
+        -4 => isize::MIN, // only used as a threshold below the window
+        -3 => isize::MIN,
+        -2 => isize::MIN + 1,
+        3 => isize::MAX,
+        2 => isize::MAX - 1,
+        4 => isize::MAX,
+        k => k as isize,
+    }
+}
+
+fn unemb(ext: bool, v: isize) -> Value {
+    if !ext {
+        return json!(v);
+    }
+    if v == isize::MIN {
+        json!(-3)
+    } else if v == isize::MIN + 1 {
+        json!(-2)
+    } else if v == isize::MAX {
+        json!(3)
+    } else if v == isize::MAX - 1 {
+        json!(2)
+    } else if (-1..=1).contains(&v) {
+        json!(v)
+    } else {
+        json!(99)
+    }
+}
+
+fn dom(ext: bool, v: &Value) -> FiniteDomain {
+    match v[0].as_str().unwrap() {
+        "itv" => FiniteDomain::from(emb(ext, v[1].as_i64().unwrap())..=emb(ext, v[2].as_i64().unwrap())),
+        _ => FiniteDomain::from(
+            v[1].as_array().unwrap().iter().map(|x| emb(ext, x.as_i64().unwrap())).collect::<Vec<isize>>(),
+        ),
+    }
+}
+
+/// A domain as the code represents it, mapped back to window coordinates.
+fn dom_json(ext: bool, d: &FiniteDomain) -> Value {
+    match d {
+        FiniteDomain::Interval(r) => json!(["itv", unemb(ext, *r.start()), unemb(ext, *r.end())]),
+        FiniteDomain::Sparse(v) => json!(["vec", v.iter().map(|x| unemb(ext, *x)).collect::<Vec<Value>>()]),
+    }
+}
+
+fn opt_dom(ext: bool, d: Option<FiniteDomain>) -> Value {
+    match d {
+        Some(d) => json!(["some", dom_json(ext, &d)]),
+        None => json!(["none"]),
+    }
+}
+
 pub fn run(case: &Value) -> Value {
-    json!({"case": case["id"], "k": "end", "kind": "exhausted", "n": 0, "after": [], "tick": 0, "msg": "", "loc": ""})
+    let id = case["id"].clone();
+    let ext = case["emb"].as_str() == Some("ext");
+    let a = dom(ext, &case["a"]);
+    let op = case["op"].as_str().unwrap();
+    let arg = case["arg"].as_i64().unwrap_or(0);
+    let t = emb(ext, arg);
+    let res: Value = match op {
+        "intersect" => opt_dom(ext, a.intersect(&dom(ext, &case["b"]))),
+        "diff" => opt_dom(ext, a.diff(&dom(ext, &case["b"]))),
+        "is_disjoint" => json!(["bool", a.is_disjoint(&dom(ext, &case["b"]))]),
+        "eq" => json!(["bool", a == dom(ext, &case["b"])]),
+        "contains" => json!(["bool", a.contains(t)]),
+        "min" => json!(["int", unemb(ext, a.min())]),
+        "max" => json!(["int", unemb(ext, a.max())]),
+        "is_singleton" => json!(["bool", a.is_singleton()]),
+        "singleton_value" => match a.singleton_value() {
+            Some(v) => json!(["some", ["int", unemb(ext, v)]]),
+            None => json!(["none"]),
+        },
+        // the threshold predicates used by the propagators: `t < *u` and `t <= *u`
+        "copy_before_gt" => opt_dom(ext, a.copy_before(|u| t < *u)),
+        "copy_before_ge" => opt_dom(ext, a.copy_before(|u| t <= *u)),
+        "drop_before_gt" => opt_dom(ext, a.drop_before(|u| t < *u)),
+        "drop_before_ge" => opt_dom(ext, a.drop_before(|u| t <= *u)),
+        "iter" => json!(["seq", a.iter().map(|x| unemb(ext, x)).collect::<Vec<Value>>()]),
+        "iter_rev" => json!(["seq", a.iter().rev().map(|x| unemb(ext, x)).collect::<Vec<Value>>()]),
+        "into_iter" => json!(["seq", a.clone().into_iter().map(|x| unemb(ext, x)).collect::<Vec<Value>>()]),
+        other => panic!("harness: unknown domop {}", other),
+    };
+    log(json!({"case": id, "k": "domop", "res": res}));
+    json!({"case": id, "k": "end", "kind": "exhausted", "n": 1, "after": [], "tick": 0, "msg": "", "loc": ""})
 }
